@@ -48,7 +48,7 @@ def handle(c):
     shutil.rmtree(d, ignore_errors=True)
     os.makedirs(d)
     world = c['world']
-    gfa, gtf_, _ = G.write_world(world, d)
+    gfa, gtf_, _prot = G.write_world(world, d)
     args = argparse.Namespace()
     args.command = 'parseRMATS'
     args.source = 'AlternativeSplicing'
@@ -105,4 +105,20 @@ def handle(c):
         out['cli'] = body(str(args.output_path))
     except Exception as e:  # noqa
         out['cli'] = {'__exc__': type(e).__name__, 'msg': str(e)[:200]}
+    if c.get('argv'):
+        # the same run through the real argument parser, every option on the command line
+        import _argv_route as AR
+        flags = {'SE': '--se', 'A5SS': '--a5ss', 'A3SS': '--a3ss', 'MXE': '--mxe', 'RI': '--ri'}
+        out2 = os.path.join(d, 'out_argv.gvf')
+        ref = AR.reference_args(c, gfa, gtf_, _prot, d)
+        if isinstance(ref, dict):
+            out['cli_argv'] = ref
+        else:
+            argv = ['parseRMATS']
+            for t, dest in names.items():
+                if getattr(args, dest) is not None:
+                    argv += [flags[t], str(getattr(args, dest))]
+            argv += ['--min-ijc', str(c['min_ijc']), '--min-sjc', str(c['min_sjc']), '-o', out2, '--source', 'AlternativeSplicing',
+                     '--debug-level', 'INFO', '--quiet'] + ref
+            out['cli_argv'] = AR.run(argv, out2)
     return out
